@@ -168,6 +168,13 @@ class Grid(object):
                     pvalue = " ".join(line[1:]).strip().lower()
                 elif pname.startswith("n") and not pname.startswith("nodata"):
                     pvalue = int(line[1].strip())
+                elif pname.startswith("nodata"):
+                    # Integer no-data values are read exactly
+                    # (64 bits integers are not all floats)
+                    try:
+                        pvalue = int(line[1].strip())
+                    except ValueError:
+                        pvalue = float(line[1].strip())
                 elif pname.startswith("parentgrid_n"):
                     pvalue = int(line[1].strip())
                 else:
